@@ -388,7 +388,7 @@ pub fn script_from_json(j: &J) -> Result<Script, String> {
 /// explore one script; fold the result into acc
 pub fn explore_script(s: &Script, bound: usize, oracle_fn: &dyn Fn(&Exec) -> Option<String>, prop_tag: &str, acc: &mut Acc) {
     // scripts about timers that outlive their search are explored with the sleeping-timer cost model
-    sched::SLEEPY_TIMERS.store(s.name.contains("live timer") || s.name.contains("stale timer"), std::sync::atomic::Ordering::Relaxed);
+    sched::SLEEPY_TIMERS.store(s.name.contains("live timer"), std::sync::atomic::Ordering::Relaxed);
     let r = sched::explore(&s.lines, bound, HORIZON, oracle_fn, 200_000);
     sched::SLEEPY_TIMERS.store(false, std::sync::atomic::Ordering::Relaxed);
     acc.states += 1;
